@@ -51,12 +51,14 @@ func extract(a hx.ExtractArgs) error {
 	}
 	lf := hx.NewLeanFile("Gms.Generated.C13", te.Path, di.Path, pt.Path, ins.Path, upd.Path)
 
-	// getRowKey: format verbs and number of writes per key column
+	// getRowKey: format verbs, what is written with the length-prefixing format (the repair of
+	// finding pk_print_collision: every printed key value is written as "%d:%s," with its own
+	// length) and the number of other writes per key column
 	fn, err := te.Func("pkTableEditAccumulator", "getRowKey")
 	if err != nil {
 		return err
 	}
-	var formats []string
+	var formats, lenArgs []string
 	writes := 0
 	ast.Inspect(fn.Body, func(n ast.Node) bool {
 		ce, ok := n.(*ast.CallExpr)
@@ -65,9 +67,15 @@ func extract(a hx.ExtractArgs) error {
 		}
 		switch te.Text(ce.Fun) {
 		case "fmt.Sprintf", "fmt.Fprintf", "fmt.Sprint", "fmt.Fprint":
-			for _, arg := range ce.Args {
+			for i, arg := range ce.Args {
 				if l, ok := arg.(*ast.BasicLit); ok && l.Kind == token.STRING {
-					formats = append(formats, strings.Trim(l.Value, "\"`"))
+					f := strings.Trim(l.Value, "\"`")
+					formats = append(formats, f)
+					if strings.Contains(f, "%d") {
+						for _, rest := range ce.Args[i+1:] {
+							lenArgs = append(lenArgs, te.Text(rest))
+						}
+					}
 				}
 			}
 		}
@@ -81,6 +89,7 @@ func extract(a hx.ExtractArgs) error {
 	}
 	lf.DefStringList("getRowKeyFormats", formats)
 	lf.DefNat("getRowKeyWrites", uint64(writes))
+	lf.DefStringList("getRowKeyLenArgs", lenArgs)
 
 	seq := func(src *hx.Src, recv, name, def string, want ...string) error {
 		fd, err := src.Func(recv, name)
@@ -195,7 +204,8 @@ func corpus() []struct {
 		S m.Schema
 		H []m.Stmt
 	}{
-		// F-C14-a: composite key (1,23)/(12,3) — false duplicate, and REPLACE loses a row
+		// F-C14-a (repaired by the fix: commit for pk_print_collision; must pass now): composite key
+		// (1,23)/(12,3) — was a false duplicate, and REPLACE lost a row
 		{c3, []m.Stmt{
 			{Kind: "ins", Rows: []m.Row{R(I(1), I(23), I(0)), R(I(12), I(3), I(1))}, Lim: -1},
 			{Kind: "rep", Rows: []m.Row{R(I(1), I(23), I(0)), R(I(12), I(3), I(1))}, Lim: -1}}},
